@@ -121,3 +121,123 @@ theorem rgbFields_good : ∀ (l : List (SCall × Option Writer.Op × Rgb)), (∀
     cases c.a <;> simp [GVals.Good, GVal.Good, SCall.Valid]
 
 end Jomini.Writer
+
+/-! ### mixed mode (scalars only) -/
+namespace Jomini.Writer
+open Jomini Jomini.Writer.Spec
+open Jomini.TextTape (Scal)
+
+theorem writeRaw_mixed_started (s : State) (x : Bytes) (hst : s.state = .arrayValue)
+    (hn : s.needsLineTerminator = false) (hm : s.mixedMode = .started) :
+    writeRaw s x = .ok { s with out := s.out ++ (32 :: x), state := .arrayValue, needsLineTerminator := false } := by
+  obtain ⟨mode, depth, state, nlt, mixed, c, f, out⟩ := s
+  simp only at hst hn hm
+  subst hst hn hm
+  simp [writeRaw, writePreamble, writeLineTerminator, writeEpilogue, put, next_arrayValue]
+
+theorem writeRaw_mixed_keyed (s : State) (x : Bytes) (hst : s.state = .arrayValue)
+    (hn : s.needsLineTerminator = false) (hm : s.mixedMode = .keyed) :
+    writeRaw s x = .ok { s with out := s.out ++ x, state := .arrayValue, needsLineTerminator := false, mixedMode := .started } := by
+  obtain ⟨mode, depth, state, nlt, mixed, c, f, out⟩ := s
+  simp only at hst hn hm
+  subst hst hn hm
+  simp [writeRaw, writePreamble, writeLineTerminator, writeEpilogue, put, next_arrayValue]
+
+theorem writeOperator_mixed (s : State) (o : Writer.Op) (hm : s.mixedMode = .started) :
+    writeOperator s o = { s with out := s.out ++ o.symbol, mixedMode := .keyed } := by
+  simp [writeOperator, hm, put]
+
+/-- the further elements of an array opened with `write_array_start` -/
+theorem run_elems_av : ∀ (rest : List SCall) (s : State), s.state = .arrayValue →
+    s.needsLineTerminator = false → s.mixedMode = .disabled →
+    ∃ s', (run (rest.map SCall.call) s).1 = s' ∧ s'.state = .arrayValue ∧
+      s'.needsLineTerminator = false ∧ s'.mixedMode = .disabled ∧ s'.depth = s.depth ∧ s'.mode = s.mode ∧
+      s'.indentChar = s.indentChar ∧ s'.indentFactor = s.indentFactor ∧ s'.out = s.out ++ elemsText rest
+  | [], s, hst, hn, hm => ⟨s, rfl, hst, hn, hm, rfl, rfl, rfl, rfl, by simp [elemsText]⟩
+  | e :: r, s, hst, hn, hm => by
+    have h := writeRaw_more s e.scal.text (Or.inl hst) hn hm
+    simp only [List.map_cons]
+    rw [run_cons_ok _ ((step_scall s e).trans h)]
+    obtain ⟨s', h1, h2, h3, h4, h5, h6, h7, h8, h9⟩ := run_elems_av r { s with out := s.out ++ (32 :: e.scal.text), state := .arrayValue, needsLineTerminator := false } rfl rfl hm
+    exact ⟨s', h1, h2, h3, h4, h5, h6, h7, h8, by rw [h9]; simp [elemsText, List.append_assoc]⟩
+
+/-- one key/operator/value triple in mixed mode -/
+theorem run_pair (a b : SCall) (o : Writer.Op) (cs : List Call) (s : State) (hst : s.state = .arrayValue)
+    (hn : s.needsLineTerminator = false) (hm : s.mixedMode = .started) :
+    (run (a.call :: (.operator o :: (b.call :: cs))) s).1 =
+      (run cs { s with out := s.out ++ (32 :: (a.scal.text ++ (o.symbol ++ b.scal.text))), state := .arrayValue, needsLineTerminator := false, mixedMode := .started }).1 := by
+  have h1 := writeRaw_mixed_started s a.scal.text hst hn hm
+  rw [run_cons_ok _ ((step_scall s a).trans h1)]
+  have h2 : step { s with out := s.out ++ (32 :: a.scal.text), state := .arrayValue, needsLineTerminator := false } (.operator o) =
+      .ok { s with out := s.out ++ (32 :: a.scal.text) ++ o.symbol, state := .arrayValue, needsLineTerminator := false, mixedMode := .keyed } := by
+    rw [step_operator, writeOperator_mixed _ o (by exact hm)]
+  rw [run_cons_ok _ h2]
+  have h3 := writeRaw_mixed_keyed { s with out := s.out ++ (32 :: a.scal.text) ++ o.symbol, state := .arrayValue, needsLineTerminator := false, mixedMode := .keyed } b.scal.text rfl rfl rfl
+  rw [run_cons_ok _ ((step_scall _ b).trans h3)]
+  simp [List.append_assoc]
+
+/-- key/operator/value triples in mixed mode, then whatever follows -/
+theorem run_pairs : ∀ (ps : List (SCall × Writer.Op × SCall)) (cs : List Call) (s : State), s.state = .arrayValue →
+    s.needsLineTerminator = false → s.mixedMode = .started →
+    ∃ s', (run (pairCalls ps ++ cs) s).1 = (run cs s').1 ∧ s'.state = .arrayValue ∧ s'.depth = s.depth ∧
+      s'.indentChar = s.indentChar ∧ s'.indentFactor = s.indentFactor ∧ s'.out = s.out ++ pairsText ps
+  | [], cs, s, hst, _, _ => ⟨s, rfl, hst, rfl, rfl, rfl, by simp [pairsText]⟩
+  | (a, o, b) :: r, cs, s, hst, hn, hm => by
+    simp only [pairCalls, List.cons_append]
+    rw [run_pair a b o _ s hst hn hm]
+    obtain ⟨s', e1, e2, e3, e4, e5, e6⟩ := run_pairs r cs { s with out := s.out ++ (32 :: (a.scal.text ++ (o.symbol ++ b.scal.text))), state := .arrayValue, needsLineTerminator := false, mixedMode := .started } rfl rfl rfl
+    exact ⟨s', e1, e2, e3, e4, e5, by rw [e6]; simp [pairsText, List.append_assoc]⟩
+
+/-- the writer after the first root key -/
+def afterRootKey (c : UInt8) (f : Nat) (k : Bytes) : State :=
+  { State.init c f with out := k, state := .keyValueSeparator }
+
+/-- the bytes of a mixed-mode call list -/
+theorem lexemes_mixed (d : MixedDoc) (c : UInt8) (f : Nat) :
+    (run d.calls (State.init c f)).1.out = d.text c f := by
+  simp only [MixedDoc.calls]
+  have hk : writeRaw (State.init c f) d.key.scal.text = .ok (afterRootKey c f d.key.scal.text) := by
+    rw [writeRaw_key (State.init c f) d.key.scal.text rfl rfl]; simp [afterRootKey, State.init]
+  rw [run_cons_ok _ ((step_scall _ d.key).trans hk)]
+  have hopen := run_arrOpen (afterRootKey c f d.key.scal.text) [61] false d.first
+    (d.rest.map SCall.call ++ (.mixedMode :: (pairCalls d.pairs ++ [.end]))) rfl (Or.inl ⟨rfl, rfl⟩)
+  simp only [Bool.false_eq_true, if_false] at hopen
+  rw [hopen, run_append]
+  obtain ⟨s2, h1, h2, h3, h4, h5, h6, h7, h8, h9⟩ := run_elems_av d.rest
+    (arrOpen (afterRootKey c f d.key.scal.text) [61] false d.first.scal.text) rfl rfl rfl
+  rw [h1]
+  have hmm : step s2 .mixedMode = .ok (startMixedMode s2) := rfl
+  rw [run_cons_ok _ hmm]
+  obtain ⟨s3, e1, e2, e3, e4, e5, e6⟩ := run_pairs d.pairs [.end] (startMixedMode s2) h2 h3 rfl
+  rw [e1]
+  have hend := writeEnd_array s3 [] (Or.inl e2) (by rw [e3]; simp [startMixedMode, h5, arrOpen, afterRootKey, State.init])
+  rw [run_single_ok ((step_end _).trans hend)]
+  simp only [e6, startMixedMode, h9, e4, e5, h7, h8, arrOpen, afterRootKey, State.init, MixedDoc.text, ind]
+  simp [List.append_assoc]
+
+/-! ### float texts -/
+
+theorem floatText_valid (t : Bytes) (h : FloatText t) : (⟨false, t⟩ : Scal).Valid := by
+  obtain ⟨neg, ip, fp, rfl, hip, hdig, hfp⟩ := h
+  have hsafe_digits : ∀ (d : Bytes), allDigits d = true → ∀ c ∈ d, safeByte c = true := by
+    intro d hd c hc
+    exact safe_digit c (.inl (by simpa [allDigits] using (List.all_eq_true.1 hd) c hc))
+  apply valid_of_safe
+  · cases neg <;> simp [hip]
+  · intro c hc
+    simp only [List.mem_append] at hc
+    rcases hc with hc | hc | hc
+    · cases neg
+      · simp at hc
+      · simp at hc; subst hc; exact safe_digit 45 (.inr (.inl rfl))
+    · exact hsafe_digits ip hdig c hc
+    · rcases hfp with rfl | ⟨fd, rfl, _, hfd⟩
+      · simp at hc
+      · simp only [List.mem_cons] at hc
+        rcases hc with rfl | hc
+        · exact safe_digit 46 (.inr (.inr (.inl rfl)))
+        · exact hsafe_digits fd hfd c hc
+
+theorem step_fmt_raw (s : State) (t : Bytes) : step s (.fmt t) = step s (SCall.raw ⟨false, t⟩).call := rfl
+
+end Jomini.Writer
